@@ -416,7 +416,9 @@ def check(ctx, bodies, rule="ORD-1", paired=()):
                     if impl_order:
                         # impl NomByteOrder for X: parse_N forwards to x_N of the same N
                         want_fn = "nom::%s_%s" % (impl_order.lower(), b.get("name", "").replace("parse_", ""))
-                        if oc == impl_order and desc == want_fn:
+                        mname = b.get("name", "").replace("parse_", "")
+                        same_num = cls is not None and oc == impl_order and cls[1] == WIDTH.get(mname, -1) and re.search(r"(^|[:_ ])%s(::|$|_)" % re.escape(mname), desc.replace("nom::%s_" % impl_order.lower(), "nom::x_")) is not None
+                        if (oc == impl_order and desc == want_fn) or same_num:
                             R.instance(rule, "%s -> %s ok" % (p, desc))
                         else:
                             R.violation(rule, key, "impl NomByteOrder for %s: %s must forward to %s but references %s" % (b.get("impl_self"), b.get("name"), want_fn, desc), file=fl, line=ln, function=p)
